@@ -23,6 +23,10 @@ HIST = {
  "C08-c": "missed at first -> '#big' cases with one giant run inside irregular keys (detected on 5 of 6 seeds in the quick tier: the trigger is a narrow bit-width window)",
  "C10-c": "missed at first (vector length multiple of 64 has probability 1/64 per dataset) -> '#sweep' cases: ~70 prefixes of one array, a few keys apart, pass through all residues",
  "C19-c": "caught by one assignment-chain / copy case in the quick tier (crash); the trigger is a count that is an exact multiple of 4096",
+ "C10-d": "missed at first -> big_dense_burst family (hundreds of thousands of segment keys inside a few Elias-Fano buckets)",
+ "C13-d": "missed by C13 at first (point sets <= 5000, never chunked), reported by C02 all along -> big_dense_grid point sets of 2^15..2^16 points",
+ "C17-d": "missed at first (about 1 large index in 100 has the geometry) -> universe sweep: the last block of keys moves bucket by bucket across the next multiple of 4096 buckets (the evidence counts the steps with the critical geometry)",
+ "C15-d": "same mechanism as C05-b / C06-c (submitted independently for C15)",
  "C06-d": "NOT reported, by design: hi == numeric max is outside the quantifier as I read it (see DESIGN section 7); every in-domain call behaves as before the change",
  "C02-d": "same family as C03-c / C01-d (under-delivered OpenMP team)",
  "C04-c": "missed at first (no segment kept > 2^16 hull vertices) -> slow_convex_long_segment family",
